@@ -630,6 +630,11 @@ impl Stdfs {
                     )?;
                 }
 
+                // Copying a file onto itself would truncate it
+                if src.path() == dst_path {
+                    continue;
+                }
+
                 // Never write through an existing link or onto a directory
                 if let Ok(meta) = fs::symlink_metadata(&dst_path) {
                     if !meta.is_file() {
